@@ -16,9 +16,11 @@ from harness.refs import byteranges, ranges as rref
 
 LEVEL = "exploration"
 RULES = {
+    "_interfaces": "every case of every sub-check is answered by four server configurations and both methods (8 answers, all parsed and compared): WSGI, "
+    "WSGI whose environ offers wsgi.file_wrapper (PEP 3333), ASGI, ASGI with the zero-copy send extension",
     "ifrange": "enumerated: every If-Range form (absent, ETag exact/unquoted/weak, near misses of the ETag: tag + suffix, tag lists, upper-case hex, truncated tag, "
     "'*', an 8-bit tag; Last-Modified exact, +-1 s, +1 day, far future, other date, garbage, empty) x "
-    "six Range shapes x two sizes on all three interfaces and both methods",
+    "six Range shapes x two sizes on all four server configurations and both methods",
     "request": "enumerated: order of the Range / If-Range header lines (either first), unrelated and look-alike header lines around them (X-Range, If-Range-X ...) x "
     "what the ASGI server offers in scope['extensions'] (key absent, empty dict, other extensions only; zero-copy alone or next to others) x "
     "If-Range {absent, ETag, garbage, 8-bit} x Range {single, multipart, unsatisfiable, 8-bit text}",
@@ -31,11 +33,11 @@ RULES = {
     "files": "Hypothesis: file size in {0, 1, c-1, c, c+1, 2c, 2c+1, random <= 5c, sizes around powers of ten} for chunk size c in "
     "{1,2,3,7,64,262144} x Range (absent, grammar-built sets of 1..5 specs biased to file end / chunk multiples / 10^k, overlapping, "
     "unordered, malformed text, empty) x If-Range (absent, exact ETag, unquoted, weak, exact Last-Modified, Last-Modified +-1 s / +1 day, far future, other date, garbage, empty) "
-    "x GET and HEAD x {WSGI, ASGI, ASGI+zero-copy} x content type given/guessed/Latin-1 x download name x header line order / noise x offered ASGI extensions "
-    "x file mtime phase x symbolic link; range sets also with tab/blank separators, zero-padded and 30-digit positions, up to 12 specs; every case is answered on all three "
-    "interfaces and both methods and the six answers are parsed and compared; non-trivial = satisfiable Range with an edge or the "
+    "x GET and HEAD x {WSGI, WSGI+file_wrapper, ASGI, ASGI+zero-copy} x content type given/guessed/Latin-1 x download name x header line order / noise x offered ASGI extensions "
+    "x file mtime phase x symbolic link; range sets also with tab/blank separators, zero-padded and 30-digit positions, up to 12 specs; every case is answered on all four "
+    "server configurations and both methods and the eight answers are parsed and compared; non-trivial = satisfiable Range with an edge or the "
     "size within +-1 of a chunk multiple, or a multipart answer",
-    "grid": "exhaustive: sizes 0..6 x chunk sizes {1,2,3} x all range sets of <= k specs over 0..7 (k=1 quick, 2 thorough) x GET/HEAD x 3 interfaces",
+    "grid": "exhaustive: sizes 0..6 x chunk sizes {1,2,3} x all range sets of <= k specs over 0..7 (k=1 quick, 2 thorough) x GET/HEAD x 4 server configurations",
 }
 ASSUMPTIONS = [
     "the random multipart boundary is normalised before interface comparison; body chunking is ignored",
@@ -167,7 +169,11 @@ def answer(case, method, iface, if_range_value, path):
     if case.get("dname"):
         kw["download_name"] = case["dname"]
     rq = request(case, method, iface, if_range_value)
-    if iface == "wsgi":
+    if iface in ("wsgi", "wsgi-fw"):
+        if iface == "wsgi-fw":
+            # the server offers the optional wsgi.file_wrapper of PEP 3333 (gunicorn, uWSGI, waitress, wsgiref all do); an
+            # application may hand its file to it, and the wrapper then reads in blocks up to the end of the file
+            rq["file_wrapper"] = True
         return gw.call_wsgi(bwsgi.FileResponse(path, **kw), rq)
     scope = gw.make_scope(rq)
     ext = scope_extensions(case, iface)
@@ -317,6 +323,8 @@ def _first_diff(a: bytes, b: bytes):
     return min(len(a), len(b))
 
 
+# every case is answered by: a WSGI server without and with the optional wsgi.file_wrapper, an ASGI server without and with zero-copy send
+IFACES = ("wsgi", "wsgi-fw", "asgi", "asgi-zc")
 TIME_ZONES = [None, "VRF-5:30", "VRW8", "VRE-13"]  # POSIX TZ strings (no tz database needed): UTC, UTC+5:30, UTC-8, UTC+13
 
 
@@ -388,7 +396,7 @@ def _oracle(case) -> Result:
     if extras:
         ctx0 += " " + " ".join(extras)
     answers = {}
-    for iface in ("wsgi", "asgi", "asgi-zc"):
+    for iface in IFACES:
         for method in ("GET", "HEAD"):
             run = answer(case, method, iface, if_range, path)
             tag = f"{iface}"
@@ -398,7 +406,7 @@ def _oracle(case) -> Result:
                 continue
             if run.errors:
                 r.fail(f"C02:{tag}:protocol:{run.errors[0][0]}", f"{ctx}: {run.errors[:3]!r}")
-            if iface != "wsgi" and not run.complete:
+            if iface.startswith("asgi") and not run.complete:
                 r.fail(f"C02:{tag}:incomplete", f"{ctx}: no final body event")
             answers[(iface, method)] = run
             if method == "GET":
@@ -412,7 +420,7 @@ def _oracle(case) -> Result:
                 if run.body != b"":
                     r.fail(f"C02:{tag}:head-body", f"{ctx}: HEAD answered with {len(run.body)} body bytes {run.body[:30]!r} (status {run.status_code})")
     # HEAD == GET headers; interfaces agree
-    for iface in ("wsgi", "asgi", "asgi-zc"):
+    for iface in IFACES:
         g, h = answers.get((iface, "GET")), answers.get((iface, "HEAD"))
         if g is None or h is None:
             continue
@@ -420,7 +428,7 @@ def _oracle(case) -> Result:
         if ng[0] != nh[0] or ng[1] != nh[1]:
             r.fail(f"C02:{iface}:head-differs", f"HEAD vs GET {iface} {ctx0}: {nh[0]} {nh[1]!r} vs {ng[0]} {ng[1]!r}")
     base = answers.get(("wsgi", "GET"))
-    for iface in ("asgi", "asgi-zc"):
+    for iface in IFACES[1:]:
         other = answers.get((iface, "GET"))
         if base is None or other is None:
             continue
@@ -441,7 +449,7 @@ def _oracle(case) -> Result:
         r.label("symlink")
     if case.get("tz"):
         r.label(f"tz={case['tz']}")
-    r.weight = 6
+    r.weight = 2 * len(IFACES)
     r.key = (size, case["chunk"], rng, kind, ext, case.get("ctype"), case.get("dname"), case.get("shape"), case.get("asgi_ext"), case.get("mtime"), case.get("link"), case.get("tz"))
     return r
 
@@ -666,5 +674,5 @@ def run(rec, only=None):
     rec.exhaustive["forms"] = True
     if not quick:
         _retire_loop()  # the thorough budget is split over forked workers
-    core.drive_hypothesis(rec, "files", file_case(), oracle, 500 if quick else 12000)
+    core.drive_hypothesis(rec, "files", file_case(), oracle, 500 if quick else 60000)
     rec.exhaustive["files"] = False
